@@ -267,10 +267,28 @@ def run(chk):
             if isinstance(nm_, ast.Name) and len(m.assigns.get(nm_.id, [])) == 1 and isinstance(m.assigns[nm_.id][0], ast.DictComp):
                 inv.append(m.assigns[nm_.id][0])
                 table_names.add(nm_.id)
+    # alternative idiom, equivalent because the codes are pairwise distinct (T2): X = mid; for source, code in ESCAPE_SEQUENCES:
+    # if code == mid: X = source    (then X plays the role of table.get(mid, mid))
+    scan_var = None
+    for f_ in body_walk(dt):
+        if isinstance(f_, ast.For) and U(f_.iter) == "ESCAPE_SEQUENCES" and isinstance(f_.target, ast.Tuple) and len(f_.target.elts) == 2 \
+                and len(f_.body) == 1 and isinstance(f_.body[0], ast.If) and not f_.body[0].orelse and not f_.orelse:
+            src_v, code_v = U(f_.target.elts[0]), U(f_.target.elts[1])
+            t_ = f_.body[0].test
+            if isinstance(t_, ast.Compare) and len(t_.ops) == 1 and isinstance(t_.ops[0], ast.Eq) and code_v in (U(t_.left), U(t_.comparators[0])) \
+                    and len(f_.body[0].body) == 1 and isinstance(f_.body[0].body[0], ast.Assign) and U(f_.body[0].body[0].value) == src_v:
+                mid_txt = U(t_.comparators[0]) if U(t_.left) == code_v else U(t_.left)
+                xv = U(f_.body[0].body[0].targets[0])
+                inits = [a_ for a_ in body_walk(dt) if isinstance(a_, ast.Assign) and U(a_.targets[0]) == xv and a_ is not f_.body[0].body[0]]
+                if len(inits) == 1 and U(inits[0].value) == mid_txt:
+                    scan_var = xv
+    if scan_var is not None and not inv:
+        chk.ob("C03.T10", f"{P}.decode_token", True, f"decode table realised as a scan over ESCAPE_SEQUENCES into `{scan_var}` (default: the escape itself)", dt, m, key="inverse-table")
     ok = len(inv) == 1 and len(inv[0].generators) == 1 and U(inv[0].generators[0].iter) == "ESCAPE_SEQUENCES" \
         and isinstance(inv[0].generators[0].target, ast.Tuple) and U(inv[0].key) == U(inv[0].generators[0].target.elts[1]) \
         and U(inv[0].value) == U(inv[0].generators[0].target.elts[0]) and not inv[0].generators[0].ifs
-    chk.ob("C03.T10", f"{P}.decode_token", ok, "decode table = {code: source for source, code in ESCAPE_SEQUENCES}", dt, m, key="inverse-table")
+    if not (scan_var is not None and not inv):
+        chk.ob("C03.T10", f"{P}.decode_token", ok, "decode table = {code: source for source, code in ESCAPE_SEQUENCES}", dt, m, key="inverse-table")
     sl = [n for n in body_walk(dt) if isinstance(n, ast.Subscript) and isinstance(n.slice, ast.Slice)]
     mids = [n for n in sl if n.slice.lower is not None and n.slice.upper is not None]
     ok = len(mids) == 1 and U(mids[0].slice.upper) == f"{U(mids[0].slice.lower)} + 2"
@@ -301,6 +319,8 @@ def run(chk):
                         for te, ve in zip(t_.elts, s_.value.elts))) for t_ in s_.targets) for s_ in body_walk(dt)))
             right_is_lookup = isinstance(r_, ast.Call) and call_tail(r_) == "get" and call_recv(r_) in table_names and len(r_.args) == 2 \
                 and U(r_.args[0]) == U(r_.args[1])
+            if scan_var is not None and isinstance(r_, ast.Name) and r_.id == scan_var:
+                right_is_lookup = True
             if left_is_head and right_is_lookup:
                 ok = True
     chk.ob("C03.T10", f"{P}.decode_token", ok, "unquote(head + expansion) is the decoded prefix", dt, m, key="prefix")
